@@ -763,10 +763,13 @@ class CWorld:
         self.invariants(f"after op {i} ({k})", light=(k in ("meta_get", "query", "nav", "grant")))
         return out
 
-    def invariants(self, when, light=False):
+    def invariants(self, when, light=False, all_drivers=False):
         want = self.check_views(when)
-        full = not light
+        heavy = self.drv[self.steps % len(self.drv)]
         for dv in self.drv:
+            # the expensive oracles rotate over the drivers (each driver every 3rd step);
+            # raw-tree TOC oracle, attached-set and user views run on all drivers every step
+            full = (not light) and (all_drivers or dv is heavy)
             raw, objs = self.toc_oracle(dv, when)
             # the model's objects are exactly the stored objects
             stored = sorted((o[2], o[0]) for o in objs.values())
@@ -810,7 +813,7 @@ class CWorld:
     def finish(self):
         # reopen everything once more and compare fresh containers
         self.op_reopen({"op": "reopen"})
-        self.invariants("after final reopen")
+        self.invariants("after final reopen", all_drivers=True)
 
 
 EXTRA_OPS = {}
@@ -992,7 +995,7 @@ class ContainerEngine:
         viol, log = [], []
         try:
             try:
-                w.invariants("initially")
+                w.invariants("initially", all_drivers=True)
                 for i, op in enumerate(case["ops"]):
                     out = w.step(i, op)
                     log.append([i, op["op"], out])
@@ -1075,7 +1078,8 @@ def op_pack(w, op):
 
     data = pack_bytes(op)
     base, target = w.norm(op["base"]), op["target"]
-    fpath = os.path.join(w.scratch, "files", f"f{op['seed']}.bin")
+    # few distinct source paths: the same path is embedded again with other content
+    fpath = os.path.join(w.scratch, "files", f"f{int(op['seed']) % 3}.bin")
     with open(fpath, "wb") as f:
         f.write(data)
     marker = data == b"\x7f"
@@ -1264,7 +1268,7 @@ def gen_reserved(g, sh, ms):
 # ====================================================================== restricted actors (C15)
 
 FLAG_SETS = [["read_only"], ["skel_only"], ["local_only"], ["read_only", "local_only"], ["read_only", "skel_only"], ["skel_only", "local_only"], ["read_only", "skel_only", "local_only"]]
-NAV_PRIMS = ["getitem", "get", "child", "values", "items", "visititems", "parent", "query", "restrict", "root_abs", "require_group_existing", "iter"]
+NAV_PRIMS = ["getitem", "get", "child", "values", "items", "visititems", "parent", "query", "restrict", "restrict_self", "root_abs", "require_group_existing", "iter"]
 MUTATING = ["g_setitem", "g_create_group", "g_require_group", "g_create_dataset", "g_require_dataset", "g_delitem", "g_move", "g_copy", "d_setitem", "d_resize", "a_setitem", "a_delitem", "a_update", "a_pop", "a_clear", "a_setdefault", "a_create", "a_modify", "m_setitem", "m_delitem", "unrestrict"]
 READING = ["d_getitem", "d_getitem_slice", "d_get", "a_getitem", "a_get", "a_values", "a_items", "m_getitem", "m_get", "m_values", "m_items", "d_astype", "d_len_fields"]
 UPWARD = ["parent", "file", "abs_lookup", "abs_get", "abs_contains", "metador_query_root", "parent_parent"]
@@ -1375,6 +1379,14 @@ def op_nav(w, op):
                     res = res.restrict(**{f: True for f in fl})
                     if "local_only" in fl and root is None:
                         root = res.name
+            elif prim == "restrict_self":
+                # restrict the very wrapper object that was (possibly) navigated from before
+                fl = FLAG_SETS[arg % len(FLAG_SETS)]
+                node.restrict(**{f: True for f in fl})
+                h["flags"] = flags_of(node)
+                if "local_only" in fl and h["root"] is None:
+                    h["root"] = node.name
+                res = None
             elif prim == "root_abs":
                 res = node["/"]
             else:
@@ -1626,7 +1638,7 @@ class ActorGen:
         if self.n[actor] == 0 or roll < 0.15:
             self.n[actor] += 1
             p = g.choice(sh.all()) if g.random() < 0.8 else "/"
-            return {"op": "grant", "actor": actor, "path": p, "flags": g.choice(FLAG_SETS), "container": g.random() < 0.5}
+            return {"op": "grant", "actor": actor, "path": p, "flags": g.choice(FLAG_SETS + [[]]), "container": g.random() < 0.5}
         if roll < 0.5:
             self.n[actor] += 1
             return {"op": "nav", "actor": actor, "h": g.randrange(1000), "prim": g.choice(NAV_PRIMS), "arg": g.randrange(50)}
